@@ -18,6 +18,9 @@ def run(chk):
     tree_rules.setup_guards(chk, "C10")
     tree_rules.backtest_init_rules(chk, "C10")
     price_guard_in_allocate(chk)
+    no_truth_test_of_pandas_entries(chk)
+    from .c06 import close_flatten
+    close_flatten(chk, "C10")  # closing works for every kind of child: what is read of the child (value / position) is read only on the branch whose children have it
     from . import backtest_rules
     backtest_rules.additional_data_only_prepended(chk)  # additional tables keep their own columns (an added all-NaN column is a NaN spread / coupon on a traded ticker)
     from .c14 import tradability
@@ -41,6 +44,55 @@ def run(chk):
         if (cls, name) == ("UpdateRisk", "_set_risk_recursive"):
             # finite numbers: a flat position has zero risk whatever its (possibly missing) unit risk is
             check_equiv(chk, "C20.R1", "bt/algos.py", cls, name, src, "documented-behaviour", "%s.%s: %s" % (cls, name, what), no_inline=("_set_risk_recursive",), limit=14)
+
+
+PANDAS_TEMP_KEYS = ("selected", "weights", "stat")  # entries of temp that stock algos fill with a list / dict OR with a pandas Index / Series
+
+
+def no_truth_test_of_pandas_entries(chk):
+    """`if not selected:` raises "truth value ... is ambiguous" as soon as an upstream algo left a pandas Index / Series there (SelectAll(include_no_data=True), WeighTarget,
+    SetStat): emptiness of these entries is tested through len()."""
+    import ast
+
+    def temp_entry(x):
+        if isinstance(x, ast.Subscript) and isinstance(x.value, ast.Attribute) and x.value.attr == "temp" and isinstance(x.slice, ast.Constant) and x.slice.value in PANDAS_TEMP_KEYS:
+            return x.slice.value
+        if (isinstance(x, ast.Call) and isinstance(x.func, ast.Attribute) and x.func.attr == "get" and isinstance(x.func.value, ast.Attribute) and x.func.value.attr == "temp"
+                and x.args and isinstance(x.args[0], ast.Constant) and x.args[0].value in PANDAS_TEMP_KEYS and len(x.args) == 1):
+            return x.args[0].value
+        return None
+
+    n = 0
+    for f in chk.prog.all_functions(modules=("bt/algos.py",)):
+        n += 1
+        bound = {}
+        for node in ast.walk(f.node):
+            if isinstance(node, ast.Assign) and len(node.targets) == 1 and isinstance(node.targets[0], ast.Name):
+                k = temp_entry(node.value)
+                nm = node.targets[0].id
+                if k is not None and nm not in bound:
+                    bound[nm] = k
+                elif nm in bound and k is None:
+                    bound[nm] = None  # re-bound to something else: not tracked
+        tests, seen = [], set()
+        for node in ast.walk(f.node):
+            if isinstance(node, (ast.If, ast.While, ast.IfExp)):
+                tests.append(node.test)
+            elif isinstance(node, ast.BoolOp):
+                tests.extend(node.values)
+            elif isinstance(node, ast.UnaryOp) and isinstance(node.op, ast.Not):
+                tests.append(node.operand)
+            elif isinstance(node, ast.Call) and isinstance(node.func, ast.Name) and node.func.id == "bool" and len(node.args) == 1:
+                tests.append(node.args[0])
+        for t in tests:
+            while isinstance(t, ast.UnaryOp) and isinstance(t.op, ast.Not):
+                t = t.operand
+            k = temp_entry(t) or (bound.get(t.id) if isinstance(t, ast.Name) else None)
+            if k is not None and (t.lineno, t.col_offset) not in seen:
+                seen.add((t.lineno, t.col_offset))
+                chk.ob("C10.R1", False, "bt/algos.py", f.qual, "truth-test:%s" % k, "temp[%r] may hold a pandas Index / Series (other stock algos put one there): its truth value raises ValueError" % k,
+                       where="%s:%d" % (f.module, t.lineno), expected="len(...) == 0 / `in` tests", found="truth test of %s" % ast.unparse(t))
+    chk.floor_count("C10.R1:algo functions scanned for truth tests of pandas entries", n, 100)
 
 
 def price_guard_in_allocate(chk):
